@@ -315,7 +315,7 @@ def run(ctx):
     failed = []
     for (name, H, W, base, n) in cfgs:
         mc(ctx, failed, "Regions", dict(spec="Spec", invariants=INV, constants=dict(
-            H=H, W=W, VALS=set(base), N=n, MUT="none")), name, coverage=(name == "3x3_b_n4"))
+            H=H, W=W, VALS=set(base), N=n, MUT="none")), name, coverage=(name == "3x3_b_n4"), timeout=4 * 3600)
     # negative twins: TLC must reject each broken variant of the two passes
     for mut, H, W, n in (("nopass2", 3, 3, 4), ("noelse", 3, 3, 4), ("localreplace", 3, 3, 4),
                          ("alwaysnew", 3, 4, 4)):
